@@ -50,6 +50,12 @@ theorem for_getAt (xs : List Nat) (g : FOR.Good xs) (i : Nat) (hi : i < xs.lengt
     FOR.getAt (FOR.enc xs ++ rest) i = some (xs.getD i 0) :=
   FOR.getAt_enc xs g i hi rest
 
+/-- the block reader (`varintFORDecodeBlock`) returns exactly the requested slice: elements start … start+blockSize-1,
+    cut at the end of the array, nothing when start is past the end -/
+theorem for_block_roundtrip (xs : List Nat) (g : FOR.Good xs) (start blockSize : Nat) (rest : List Nat) :
+    FOR.decBlock (FOR.enc xs ++ rest) start blockSize = some ((xs.drop start).take blockSize) :=
+  FOR.decBlock_enc xs g start blockSize rest
+
 /-- run-length (headerless): decoding with the original count -/
 theorem rle_roundtrip (xs : List Nat) (hx : U64s xs) (hn : xs.length < 2 ^ 64) (rest : List Nat) :
     RLE.dec (RLE.enc xs ++ rest) xs.length = some xs :=
